@@ -688,7 +688,7 @@ package tlog
 //@ func FormatRecord
 //@   allocates
 //@   ensures [C09] formats_valid_text_only: (err == nil) == RECTEXT(string(text))
-//@   ensures [C09] format: err == nil ==> string(msg) == DEC(id) + "\n" + string(text) + "\n"
+//@   ensures [C09] format: err == nil ==> string(msg) == DECS(id) + "\n" + string(text) + "\n"
 //@   props C09
 //@ # the id line ends at the first newline: decimal text has none
 //@ lemma rec_first_newline(d string, x string)
@@ -709,6 +709,6 @@ package tlog
 //@ # (id, t) with nothing left over
 //@ lemma record_roundtrip(id int, t string)
 //@   requires 0 - 9223372036854775808 <= id && id <= 9223372036854775807 && len(t) < 4611686018427387000 && RECTEXT(t)
-//@   ensures PARSEDREC(DEC(id) + "\n" + t + "\n", id, t, "")
+//@   ensures PARSEDREC(DECS(id) + "\n" + t + "\n", id, t, "")
 //@   uses dec_parse rec_first_newline rec_first_blank cat_prefix cat_assoc
 //@   props C09
